@@ -426,9 +426,16 @@ def r8_no_callback_after_commit(ctx, res):
     n = 0
     for fname in ('_add_lexical_resource', 'remove'):
         f = ctx.repo.func('_add', fname)
-        withs = [w for w in walk_no_nested(f.node) if isinstance(w, ast.With)
-                 and any(isinstance(it.context_expr, ast.Call) and norm(it.context_expr.func) == 'connect' for it in w.items)
-                 or isinstance(w, ast.With) and any(norm(it.context_expr) == 'conn' for it in w.items)]
+        from ..pyutil import binding_sites
+
+        def is_connection(e):
+            if isinstance(e, ast.Call) and norm(e.func) == 'connect':
+                return True
+            if isinstance(e, ast.Name):
+                vals = [b[1] for b in binding_sites(f.node, e.id) if b[0] == 'assign']
+                return bool(vals) and all(isinstance(x, ast.Call) and norm(x.func) == 'connect' for x in vals)
+            return False
+        withs = [w for w in walk_no_nested(f.node) if isinstance(w, ast.With) and any(is_connection(it.context_expr) for it in w.items)]
         key = f'callbacks-inside-transaction:{fname}'
         res.inst(key, f.module.loc(f.node), f'{len(withs)} transaction block(s)')
         if not withs:
